@@ -328,11 +328,16 @@ def run(ctx):
             fault_scripts.append({"case": c, "mode": "kill", "sys": p["sys"], "k": p["k"], "j": p["j"]})
         epts = fault_points(h, MUTATING | {"close"})
         if quick and c["prim"] not in ("unpack", "symlink"):
-            # one failing call of every kind per case (the seed picks which); all of them for the short traces
+            # up to three failing calls of every kind per case; all of them for the short traces
             byop = {}
             for p in epts:
                 byop.setdefault(p["op"], []).append(p)
-            epts = [v[ctx.seed % len(v)] for v in byop.values()]
+            # the first and the last call of a kind always (e.g. the final rename), one more picked by the seed
+            epts = []
+            for v in byop.values():
+                for q in (v[0], v[-1], v[ctx.seed % len(v)]):
+                    if q not in epts:
+                        epts.append(q)
         if c["prim"] == "fetch" and quick:
             epts = epts[:3]    # a failed download is retried after a one second back-off
         for p in epts:
